@@ -27,6 +27,9 @@ SCENARIOS = [
     ("custom,null", "pause_defer", {"second_call": ("checkpoint",)}),
     ("custom_async,checkpoint", "pause_defer", {}),
     ("custom,checkpoint,rewindable_off,rewindable_on", "pause_defer", {}),
+    # implicit checkpoints (stage ...) are not checkpoints for a deferred pause; a suspension in between does not cancel the request
+    ("custom,stage,unstage,checkpoint", "pause_defer", {}),
+    ("custom,checkpoint", "pause_defer,suspend", {} if THOROUGH else {"max_requests": 2}),
 ]
 if THOROUGH:
     SCENARIOS += [
